@@ -1,11 +1,12 @@
 (** Property C03 -- no input can make decoding panic, corrupt memory or hang.
-    This file collects the parts that are theorems today; the overall statement "the model never returns RPanic for
-    any byte string" is NOT yet proved (partial) and is covered by the correspondence run (implementation in debug and
-    release builds, extracted model) with the oracle "no panic, no timeout, reusable after an error".
+    The headline is [C03_no_history_of_calls_panics] near the end of this file: on the decoder model no history of
+    entry-point calls on arbitrary byte strings returns a panic value, and every loop ends within its fuel.  The layer
+    theorems it is assembled from come first.  The theorem speaks about the model; the correspondence run (implementation
+    in debug and release builds against the extracted model, oracle "no panic, no timeout, reusable after an error") ties
+    it to the code.
     - memory safety of the output window, every operation sequence, every chunk size: C04_run, C04_step_no_fault
     - FSE state transitions stay inside the table for every accuracy log / probability: C12_state_range_in_table
-    - block sizes, buffer length bookkeeping, offset history well-formedness for every input: C05_* (the invariants are
-      what keeps indices in range in sequence execution)
+    - block sizes, buffer length bookkeeping, offset history well-formedness for every input: C05_*
     - the repeat-offset step never underflows: C14_offset_history_no_overflow *)
 Require Import Zrs.lib.RsPrelude Zrs.model.RingBuffer Zrs.model.BlockDec.
 Require Import Zrs.proofs.C04_Run Zrs.proofs.C06_Drain Zrs.proofs.C05_Block Zrs.proofs.C12_Fse Zrs.proofs.C14_Headers.
@@ -13,7 +14,7 @@ Require Import Zrs.model.FseDec Zrs.gen.Generated Zrs.model.BitIO Zrs.model.BitR
 Require Import Zrs.model.FseDec Zrs.model.HufDec Zrs.proofs.C03_Desc Zrs.proofs.C03_HufTable.
 Require Import Zrs.model.FseEnc Zrs.proofs.C03_HufComplete Zrs.proofs.C03_HufStream Zrs.proofs.C03_FseStates.
 Require Import Zrs.model.Headers Zrs.model.FrameDec Zrs.proofs.C11_Reset Zrs.proofs.C03_FseBuild Zrs.proofs.C03_HufBuild Zrs.proofs.C03_Literals Zrs.proofs.C03_Sequences
-               Zrs.proofs.C03_Exec Zrs.proofs.C03_BlockTotal Zrs.proofs.C03_FrameTotal.
+               Zrs.proofs.C03_Exec Zrs.proofs.C03_BlockTotal Zrs.proofs.C03_FrameTotal Zrs.proofs.C03_ApiTotal.
 Open Scope Z_scope.
 
 Theorem C03_window_never_faults : forall k ops, (1 <= k)%nat -> Forall op_contract ops -> forall s, Inv s ->
@@ -180,6 +181,54 @@ Theorem C03_sound_decoders_exist : dec_sound fdec_new /\
   (forall d id, dec_sound d -> match fdec_force_dict d id with ROk d' => dec_sound d' | RErr _ => True | RPanic _ => False end).
 Proof. split; [exact fdec_new_sound|]. split; [exact fdec_add_dict_sound|exact fdec_force_dict_sound]. Qed.
 
+(** *** the public entry points
+
+    decode_all (any number of frames and skippable frames), decode_from_to, the streaming decoder's read: EVERY byte string;
+    the fuel of every loop in the model is sufficient because every round consumes input (the real loops are bounded the
+    same way) *)
+Theorem C03_decode_all_never_panics : forall d input cap, dec_sound d -> bytes_ok input = true -> 0 <= cap ->
+  match fdec_decode_all d input cap with
+  | ROk (d', out) => dec_sound d'
+  | RErr _ => True
+  | RPanic _ => False
+  end.
+Proof. exact fdec_decode_all_never_panics. Qed.
+
+Theorem C03_decode_from_to_never_panics : forall d source target_len, dec_sound d -> bytes_ok source = true -> 0 <= target_len ->
+  match fdec_decode_from_to d source target_len with
+  | ROk (d', consumed, out) => dec_sound d'
+  | RErr _ => True
+  | RPanic _ => False
+  end.
+Proof. exact fdec_decode_from_to_never_panics. Qed.
+
+Theorem C03_streaming_read_never_panics : forall d src buf_len, dec_sound d -> bytes_ok src = true -> 0 <= buf_len ->
+  match stream_read d src buf_len with
+  | ROk (d', src', out) => dec_sound d' /\ bytes_ok src' = true /\ zlen out <= buf_len
+  | RErr _ => True
+  | RPanic _ => False
+  end.
+Proof. exact stream_read_never_panics. Qed.
+
+(** THE PROPERTY ON THE MODEL: starting from a new decoder, no history of calls -- dictionaries parsed from any bytes,
+    reset / decode_blocks / decode_all / decode_from_to / streaming read on any bytes, read / collect, forced dictionaries,
+    window limits, in any order, continuing after errors -- makes any entry point return a panic value *)
+Theorem C03_no_history_of_calls_panics : forall ops, Forall call_ok ops ->
+  match api_run fdec_new ops with RPanic _ => False | _ => True end.
+Proof. exact no_history_panics. Qed.
+
+(** the hypotheses are met by ordinary use: a history that decodes a one-byte frame to the end *)
+Example C03_history_example :
+  let ops := [OpReset [40; 181; 47; 253; 32; 1; 9; 0; 0; 65]; OpDecodeBlocks [9; 0; 0; 65] SAll; OpRead 10] in
+  Forall call_ok ops /\
+  match api_run fdec_new ops with ROk d => fdec_is_finished d = true /\ fdec_can_collect d = 0 | _ => False end /\
+  match fdec_decode_all fdec_new [40; 181; 47; 253; 32; 1; 9; 0; 0; 65] 10 with ROk (_, out) => out = [65] | _ => False end.
+Proof. split; [repeat constructor; cbn; lia|]. split; vm_compute; auto. Qed.
+
+Print Assumptions C03_decode_all_never_panics.
+Print Assumptions C03_decode_from_to_never_panics.
+Print Assumptions C03_streaming_read_never_panics.
+Print Assumptions C03_no_history_of_calls_panics.
 Print Assumptions C03_fse_table_from_any_bytes.
 Print Assumptions C03_huffman_table_from_any_bytes.
 Print Assumptions C03_literals_section_never_panics.
